@@ -108,6 +108,12 @@ pub fn path_flags() -> (bool, bool) {
     rt::execution(|execution| execution.path.verif_flags())
 }
 
+/// Number of decisions (entries of the path) taken so far in the current iteration. Must be
+/// called inside a model.
+pub fn path_pos() -> usize {
+    rt::execution(|execution| execution.path.verif_pos())
+}
+
 pub(crate) fn record(path: &Path, index: usize, panicked: bool) {
     OBSERVER.with(|o| {
         // `try_borrow_mut`: never panic from here (may run during unwinding)
